@@ -252,7 +252,6 @@ func TestC03TimeHandler(t *testing.T) {
 	})
 }
 
-
 // c03Frames seals n frames of one class from a to b and returns their bytes.
 func c03Frames(c *core.Case, mt frame.MessageType, n int) (recv *state.Session, frames [][]byte, builder *frame.Builder) {
 	ia, ib := 0, 8
